@@ -354,6 +354,103 @@ def run_planning(ctx):
                         ctx.violation(opname.split('/')[0], cfg, 'raises:' + type(e).__name__, message=str(e)[:200], shape=shape2)
 
 
+def run_plan_history(ctx):
+    """Plans and temporaries prepared ahead of the call (init_fftw_plan(), create_temporaries()) on lengths that FFTW does not
+    handle with a single codelet: a prepared out-of-place plan executed in place, or scratch memory of the wrong space, still
+    "works" on tiny arrays.  Each operator is evaluated before and after the preparation, out-of-place and in-place, against
+    numpy.fft / the unprepared operator."""
+    rng = ctx.rng('plan-history')
+    idx = 50000
+    shapes = [(64,), (1000,), (30, 40), (31, 45), (16, 16), (5, 6, 7)]
+    for shape, dt, hc, sign, impl in itertools.product(shapes, ('float64', 'float32', 'complex128'), (False, True), ('-', '+'), ('pyfftw', 'numpy')):
+        if (dt == 'complex128' and hc) or (hc and sign == '+'):
+            continue       # half-complex needs real data and is documented for sign '-' only
+        idx += 1
+        if not ctx.mine(idx):
+            continue
+        if not ctx.thorough and (sign == '+' and shape not in ((64,), (30, 40))):
+            continue
+        nd = len(shape)
+        tol = 2e-4 if dt == 'float32' else 1e-10
+        cfg = '%s;%s;%s;sign%s;%s' % (impl, 'real' if dt != 'complex128' else 'complex', 'hc' if hc else 'full', sign, 'single' if dt == 'float32' else 'double')
+        sp = odl.uniform_discr([-1.0] * nd, [1.0] * nd, shape, dtype=dt)
+        xa = (rng.normal(size=shape) + (1j * rng.normal(size=shape) if dt == 'complex128' else 0)).astype(dt)
+        # --- discrete transform with a plan prepared ahead
+        if impl == 'pyfftw':
+            ctx.ev('dft-vs-numpy')
+            ctx.case('plan-history;dft;' + cfg, shape)
+            try:
+                F = T.DiscreteFourierTransform(sp, impl=impl, halfcomplex=hc, sign=sign)
+                wide = xa.astype(complex if dt != 'float32' else 'complex64') if not hc else xa
+                if hc:
+                    ref = np.fft.rfftn(xa) if sign == '-' else np.conj(np.fft.rfftn(xa))
+                else:
+                    ref = np.fft.fftn(xa) if sign == '-' else np.fft.ifftn(xa) * xa.size
+                sc = max(1.0, float(np.abs(ref).max()))
+                for stage in ('first-call', 'after-init_fftw_plan', 'after-init_fftw_plan;in-place', 'third-call'):
+                    if stage == 'after-init_fftw_plan':
+                        F.init_fftw_plan()
+                    x = sp.element(xa.copy())
+                    if stage.endswith('in-place'):
+                        out = F.range.element()
+                        F(x, out=out)
+                        got = np.asarray(out)
+                    else:
+                        got = np.asarray(F(x))
+                    if not np.allclose(got, ref, rtol=tol, atol=tol * sc):
+                        ctx.violation('DiscreteFourierTransform', cfg + ';' + stage.split(';')[0], '!=numpy.fft', shape=shape, stage=stage,
+                                      relerr=float(np.abs(got - ref).max() / sc))
+                        break
+                    if not np.array_equal(np.asarray(x), xa):
+                        ctx.violation('DiscreteFourierTransform', cfg + ';' + stage.split(';')[0], 'input-modified', shape=shape, stage=stage)
+                        break
+                Fi = F.inverse
+                Fi.init_fftw_plan()
+                back = np.asarray(Fi(F.range.element(ref.astype(F.range.dtype))))
+                if not np.allclose(back, xa, rtol=tol, atol=tol * max(1.0, float(np.abs(xa).max()))):
+                    ctx.violation('DiscreteFourierTransformInverse', cfg + ';after-init_fftw_plan', 'inverse(forward(x))!=x', shape=shape)
+            except Exception as e:
+                ctx.violation('DiscreteFourierTransform', cfg, 'raises:' + type(e).__name__, message=str(e)[:200], shape=shape)
+        # --- continuous transform and its inverse with temporaries prepared ahead
+        ctx.ev('ft-inverse')
+        ctx.case('plan-history;ft;' + cfg, shape)
+        try:
+            for which in ('forward', 'inverse', 'inverse-class'):
+                F0 = T.FourierTransform(sp, impl=impl, halfcomplex=hc, sign=sign)
+                F1 = T.FourierTransform(sp, impl=impl, halfcomplex=hc, sign=sign)
+                if which == 'inverse':
+                    F0, F1 = F0.inverse, F1.inverse
+                elif which == 'inverse-class':
+                    # the class built directly: it *has* the opposite sign of the forward transform it inverts
+                    isign = '+' if sign == '-' else '-'
+                    F0 = T.FourierTransformInverse(sp, impl=impl, halfcomplex=hc, sign=isign)
+                    F1 = T.FourierTransformInverse(sp, impl=impl, halfcomplex=hc, sign=isign)
+                if which == 'forward':
+                    x = F0.domain.element(xa.copy())
+                else:
+                    # data on which the inverse is defined: a transform of real-space data
+                    x = F0.domain.element(np.asarray(T.FourierTransform(sp, impl=impl, halfcomplex=hc, sign=sign)(sp.element(xa.copy()))))
+                xk = np.asarray(x).copy()
+                ref = np.asarray(F0(x))
+                F1.create_temporaries()
+                got = np.asarray(F1(x))
+                sc = max(1e-300, float(np.abs(ref).max()))
+                if not np.allclose(got, ref, rtol=tol, atol=tol * sc):
+                    ctx.violation('FourierTransform' + ('' if which == 'forward' else 'Inverse'), cfg + ';create_temporaries', 'value-differs-from-unprepared-operator',
+                                  shape=shape, which=which, relerr=float(np.abs(got - ref).max() / sc))
+                out = F1.range.element()
+                F1(x, out=out)
+                if not np.allclose(np.asarray(out), ref, rtol=tol, atol=tol * sc):
+                    ctx.violation('FourierTransform' + ('' if which == 'forward' else 'Inverse'), cfg + ';create_temporaries', 'inplace!=oop', shape=shape, which=which)
+                if not np.array_equal(np.asarray(x), xk):
+                    ctx.violation('FourierTransform' + ('' if which == 'forward' else 'Inverse'), cfg + ';create_temporaries', 'input-modified', shape=shape, which=which)
+                if which != 'forward':
+                    if not np.allclose(got, xa, rtol=max(tol, 1e-8), atol=max(tol, 1e-8) * max(1.0, float(np.abs(xa).max()))):
+                        ctx.violation('FourierTransformInverse', cfg + ';create_temporaries', 'inverse(forward(x))!=x', shape=shape, which=which)
+        except Exception as e:
+            ctx.violation('FourierTransform', cfg + ';create_temporaries', 'raises:' + type(e).__name__, message=str(e)[:200], shape=shape)
+
+
 def run_refinement(ctx):
     for nd in (1, 2):
         for impl in ('numpy', 'pyfftw'):
@@ -492,6 +589,7 @@ def run(ctx):
                 cov.add(vars(c).get(m), '%s.%s' % (cname, m))
     cov.arm()
     run_planning(ctx)      # first, while the process has no FFTW wisdom yet
+    run_plan_history(ctx)
     run_dft(ctx)
     run_ft(ctx)
     run_wavelets(ctx)
